@@ -410,4 +410,11 @@ def classify(case, div):
             and div['kind'] in ('overtake-callbacks-out-of-turn',
                                 'overtake-registration'):
         return 'release-overtaken-by-immediate-callback'
+    if case.get('scenario') == 'session' and div.get('release_cut') \
+            and div['kind'] == 'session-callbacks-not-alternating':
+        # same mechanism, other route: a callback raised out of the release
+        # (Quit, SwitchWorld, an error), the world stays enabled with
+        # callbacks still queued, and the immediate callback of a later
+        # operation overtakes them
+        return 'release-overtaken-by-immediate-callback'
     return None
